@@ -479,7 +479,10 @@ class FullLib(Lib):
         return self.hasattr(it, obj, cstr(name))
 
     def c_getattr(self, it, obj, name, default=None):
-        return self.getattr(it, obj, cstr(name))
+        n = cstr(name)
+        if isinstance(obj, VObj) and obj.cls == "namespace" and n not in obj.f:
+            it.raise_("AttributeError")
+        return self.getattr(it, obj, n)
 
     # ---- os / shutil / io
     def c_os_path_isfile(self, it, p):
@@ -640,6 +643,13 @@ class FullLib(Lib):
         al = self.need_str(it, vals["store_algorithm"], "TypeError")
         return VStr(yaml_dump(dep.term, wid.term, ns.term, al.term))
 
+    # ---- argparse / factory (client) -----------------------------------------------------------
+    def c_ArgumentParser(self, it, **kw):
+        return VObj("argparser", options=VList([]))
+
+    def c_HashStoreFactory(self, it):
+        return VObj("factory")
+
     def c_threading_Lock(self, it):
         return VObj("lock", flavor="th")
 
@@ -702,6 +712,54 @@ class FullLib(Lib):
                 return self.cond_method(it, obj, name)
             if c == "locklist":
                 return self.locklist_method(it, obj, name, args)
+            if c == "argparser":
+                if name == "add_argument":
+                    flags = [cstr(a) for a in args]
+                    dest = cstr(kwargs["dest"]) if "dest" in kwargs else flags[0].lstrip("-")
+                    act = cstr(kwargs["action"]) if "action" in kwargs else "store"
+                    typ = kwargs.get("type")
+                    obj.f["options"].items.append(VObj(
+                        "option", flags=flags, dest=dest, action=act,
+                        type=(typ.name if isinstance(typ, VExt) else None),
+                        default=kwargs.get("default", NONE)))
+                    obj.f["options"].guards.append(TRUE)
+                    return NONE
+                if name == "parse_args":
+                    ns = VObj("namespace")
+                    for o in obj.f["options"].items:
+                        d = o.f["dest"]
+                        if o.f["action"] == "store_true":
+                            ns.f[d] = VBool(z3.Bool("opt_" + d))
+                            if d == "knbvm_flag":
+                                # the Metacat test driver is outside C20 (stated precondition)
+                                it.ctx.assume(z3.Not(ns.f[d].term))
+                        elif o.f["action"] == "store":
+                            positional = not o.f["flags"][0].startswith("-")
+                            if o.f["type"] == "int":
+                                tags = (T_INT,) if positional else (T_NONE, T_INT)
+                            elif o.f["type"] is None:
+                                tags = (T_STR,) if positional else (T_NONE, T_STR)
+                            else:
+                                raise Undecided(f"argparse type={o.f['type']}")
+                            v = VDyn("opt_" + d, tags)
+                            it.ctx.assume(v.domain())
+                            ns.f[d] = v
+                        else:
+                            raise Undecided(f"argparse action {o.f['action']}")
+                    it.ctx.namespace = ns
+                    return ns
+            if c == "factory" and name == "get_hashstore":
+                api = VObj("api", calls=VList([]), properties=args[2], module=args[0], clsname=args[1])
+                it.ctx.__dict__.setdefault("apis", []).append(api)
+                return api
+            if c == "api":
+                obj.f["calls"].items.append(VObj("apicall", name=name, args=VList(list(args)),
+                                                 kwargs=VDict([[TRUE, VStr(k), v]
+                                                               for k, v in kwargs.items()])))
+                obj.f["calls"].guards.append(TRUE)
+                return VObj("apiresult", call=name)
+            if c == "apiresult":
+                return VObj("apiresult", call=obj.f["call"] + "." + name)
             if c == "manager" and name == "list":
                 return VObj("rawlist", flavor="mp")
             if c == "rawlist":
